@@ -519,11 +519,15 @@ func init() {
 		lightMedium(c, "C11", false)
 	}
 	Checks["C08"] = func(c *Ctx) {
-		fam := &LightFamily{Nmax: pick(c, 5, 6), Prop: "C08", UndoBud: 2}
+		fam := &LightFamily{Nmax: 5, Prop: "C08", UndoBud: 2}
 		c.Cov.Rule = "the C07 light-client search with Undo transitions (Proof.Undo with the undone block's addition count, targets, deleted hashes, ToDestroy and proof; newest first; budget = undos per path; arbitrary further blocks afterwards); after every undo and after every later update the held set must be exactly the previously held leaves that existed before the block (leaves the block deleted may or may not be back), with true positions, canonical hashes, accepted by Verify against the pre-block stump and equal to the full prover's proof; non-trivial = distinct concrete client state reached through an undo"
 		c.Cov.Bound["Nmax"] = fam.Nmax
 		c.Cov.Bound["undo_budget"] = fam.UndoBud
 		BFS(c, fam, 0)
+		if c.Thorough() {
+			c.Cov.Bound["deep.Nmax/undo"] = "6/1"
+			BFS(c, &LightFamily{Nmax: 6, Prop: "C08", UndoBud: 1}, 0)
+		}
 		// three undos in a row (and arbitrary further updates in between)
 		n3 := pick(c, 4, 5)
 		c.Cov.Bound["three_undos.Nmax"] = n3
